@@ -158,3 +158,843 @@ def slice_sites(fn: ast.AST) -> List[Tuple[ast.stmt, ast.Subscript]]:
                         and isinstance(n.ctx, ast.Load):
                     out.append((st, n))
     return out
+
+
+# ---------------------------------------------------------------------------
+# M1 - wire-type dispatch exhaustive over 0..7
+
+
+def _reader_paths(ctx, mod: Module, qual: str, w: int, **kw) -> List[Path]:
+    from .codec import wire_type_local
+
+    fn = mod.func(qual)
+    wt = wire_type_local(fn)
+    paths = Interp(mod, local_bindings={wt: w}, fresh_calls=["read", "load_varint", "decode_varint"], **kw).run(fn)
+    ctx.count(len(paths))
+    return paths
+
+
+def _yield_value(e) -> Optional[Sym]:
+    y = e.data
+    if y[0] == "call":
+        for k, v in y[3]:
+            if k == "value":
+                return v
+        if len(y[2]) >= 3:
+            return y[2][2]
+    return None
+
+
+def rule_M1(ctx) -> None:
+    mod = ctx.repo.mod(M_INIT)
+    for q in ("load_fields", "parse_fields"):
+        fn = mod.func(q)
+        ctx.analysed(q)
+        for w in range(8):
+            paths = _reader_paths(ctx, mod, q, w)
+            outcomes = set()
+            for p in paths:
+                ys = [e for e in p.events if e.kind == "yield"]
+                if ys:
+                    v = _yield_value(ys[0])
+                    outcomes.add("yield:None" if v == C(None) else "yield:payload")
+                elif p.outcome == "raise":
+                    outcomes.add("raise")
+                else:
+                    outcomes.add("end")
+            outcomes.discard("end")  # clean end of input at the tag
+            if w in VALID_WIRE:
+                if outcomes <= {"yield:payload", "raise"} and "yield:payload" in outcomes:
+                    ctx.proved("M1", f"{q}:wire[{w}]", mod.loc(fn))
+                else:
+                    ctx.refuted("M1", f"{q}:wire[{w}]", ",".join(sorted(outcomes)), mod.loc(fn), f"valid wire type {w} is not decoded into a payload: {sorted(outcomes)}")
+            else:
+                if "yield:None" in outcomes or (w in INVALID_WIRE and "yield:payload" in outcomes):
+                    ctx.refuted("M1", f"{q}:wire[{w}]", ",".join(sorted(outcomes)), mod.loc(fn),
+                                f"wire type {w} is not handled by the dispatch chain: the field is yielded with no payload (value None) instead of being rejected",
+                                f"M().parse(bytes([(1 << 3) | {w}]) + b'\\x00')")
+                elif outcomes == {"raise"}:
+                    ctx.proved("M1", f"{q}:wire[{w}]", mod.loc(fn), "rejected")
+                elif w in GROUP_WIRE and outcomes <= {"yield:payload", "raise"}:
+                    ctx.inconclusive("M1", f"{q}:wire[{w}]", "group wire type yields a payload; group skipping is not modelled", mod.loc(fn))
+                else:
+                    ctx.inconclusive("M1", f"{q}:wire[{w}]", f"outcomes {sorted(outcomes)}", mod.loc(fn))
+
+
+# ---------------------------------------------------------------------------
+# M2 - field number 0 is rejected
+
+
+def rule_M2(ctx) -> None:
+    from .codec import field_number_local, wire_type_local
+
+    mod = ctx.repo.mod(M_INIT)
+    found_in = None
+    for q in ("load_fields", "Message.load"):
+        fn = mod.func(q)
+        for n in ast.walk(fn):
+            if isinstance(n, ast.If) and any(isinstance(b, ast.Raise) for b in ast.walk(ast.Module(body=n.body, type_ignores=[]))):
+                t = simplify(from_ast(n.test))
+                txt = show(t)
+                if ("number" in txt) and _rejects_zero(t):
+                    found_in = (q, n)
+    lf = mod.func("load_fields")
+    if found_in is None:
+        ctx.refuted("M2", "field-number-0", "no-test", mod.loc(lf),
+                    "neither load_fields nor Message.load tests the decoded field number against 0 before using it; tag 0x00.. is accepted",
+                    "M().parse(b'\\x00\\x05')")
+        return
+    q, n = found_in
+    # the test must lie on every path from the tag decode to the yield / field lookup
+    fn = mod.func(q)
+    g = CFG(fn, implicit_exc=False)
+    tests = {nd.id for nd in g.nodes_for(n) if nd.kind == "test"}
+    if q == "load_fields":
+        targets = [nd for nd in g.nodes if nd.stmt is not None and nd.kind == "stmt" and any(isinstance(x, ast.Yield) for x in own_nodes(nd.stmt))]
+        heads = [nd for nd in g.nodes if nd.kind == "loop"]
+    else:
+        targets = [nd for nd in g.nodes if nd.stmt is not None and nd.kind == "stmt" and "field_name_by_number" in ast.unparse(nd.stmt)]
+        heads = [nd for nd in g.nodes if nd.kind == "loop" and "load_fields" in ast.unparse(nd.stmt.iter if isinstance(nd.stmt, ast.For) else nd.stmt)]
+    ok = bool(targets) and bool(heads) and all(g.must_pass(h.id, t.id, tests, labels=normal_edge) for h in heads[:1] for t in targets)
+    if ok:
+        ctx.proved("M2", "field-number-0", mod.loc(n), f"tested in {q}")
+    else:
+        ctx.refuted("M2", "field-number-0", "bypassable", mod.loc(n), f"the field-number test in {q} does not lie on every path to the use of the field")
+
+
+def _rejects_zero(t: Sym) -> bool:
+    """test is true when <number> is 0"""
+    neg = False
+    while t[0] == "op" and t[1] == "not":
+        neg = not neg
+        t = t[2]
+    val = None
+    if t[0] == "op" and t[1] == "==" and t[3] == C(0):
+        val = True
+    elif t[0] == "op" and t[1] == "<" and t[3][0] == "c" and isinstance(t[3][1], int) and t[3][1] == 1:
+        val = True       # number < 1
+    elif t[0] == "op" and t[1] == "<" and t[2] == C(0):
+        val = False      # 0 < number
+    elif t[0] in ("n", "a", "item"):
+        val = False      # truthy(number)
+    if val is None:
+        return False
+    return (not val) if neg else val
+
+
+# ---------------------------------------------------------------------------
+# M3 - payload reads are length-checked
+
+
+def rule_M3(ctx) -> None:
+    mod = ctx.repo.mod(M_INIT)
+    lf = mod.func("load_fields")
+    res = [r for r in read_guards(mod, lf)]
+    ctx.floor("M3", "stream reads in load_fields", len(res), 3)
+    for r in res:
+        name = f"load_fields:read({r['n']})"
+        if r["guarded"]:
+            ctx.proved("M3", name, f"{mod.rel}:{r['line']}")
+        else:
+            ctx.refuted("M3", name, "unchecked", f"{mod.rel}:{r['line']}",
+                        f"`{r['var']} = stream.read({r['n']})` may return fewer bytes than requested; {r['why'] or 'no length test'} - a truncated payload is decoded as a shorter value",
+                        "M().parse(bytes(M(s='hello'))[:-2])")
+    # parse_fields: slices of the buffer must be bounded by a test of the end index against len(value)
+    pf = mod.func("parse_fields")
+    sl = slice_sites(pf)
+    ctx.floor("M3", "payload slices in parse_fields", len(sl), 3)
+    g = CFG(pf, implicit_exc=False)
+    bufname = pf.args.args[0].arg
+    # accepted idiom: a test comparing the position with len(buffer) whose failing branch raises, between the slices and the yield
+    guard_tests = []
+    for nd in g.nodes:
+        if nd.kind == "test" and isinstance(nd.stmt, ast.If) and any(isinstance(b, ast.Raise) for b in nd.stmt.body):
+            t = simplify(from_ast(nd.stmt.test))
+            if contains(t, ("call", N("len"), (N(bufname),), ())) and t[0] == "op" and (t[1] == "<" or (t[1] == "not" and t[2][0] == "op" and t[2][1] in ("<", "=="))):
+                guard_tests.append(nd.id)
+    yields = [nd for nd in g.nodes if nd.stmt is not None and nd.kind == "stmt" and any(isinstance(x, ast.Yield) for x in own_nodes(nd.stmt))]
+    for st, sub in sl:
+        if ast.unparse(sub.value) != bufname:
+            continue
+        if sub.slice.lower is not None and isinstance(sub.slice.lower, ast.Name) and sub.slice.lower.id == "start":
+            continue  # raw = value[start:i] is the consumed region itself
+        name = f"parse_fields:{ast.unparse(sub)}"
+        ok = False
+        for sn in g.nodes_for(st):
+            if yields and guard_tests and all(g.must_pass(sn.id, y.id, set(guard_tests), labels=normal_edge) for y in yields):
+                ok = True
+        if ok:
+            ctx.proved("M3", name, mod.loc(st))
+        else:
+            ctx.refuted("M3", name, "unchecked", mod.loc(st),
+                        f"slice {ast.unparse(sub)} silently yields fewer bytes when the buffer is too short; no test of the end position against len({bufname}) precedes the yield",
+                        "list(parse_fields(b'\\x0a\\x05ab'))")
+
+
+# ---------------------------------------------------------------------------
+# M3b - clean end of input only at a field boundary
+
+
+def rule_M3b(ctx) -> None:
+    mod = ctx.repo.mod(M_INIT)
+    lv = mod.func("load_varint")
+    lf = mod.func("load_fields")
+    # which exception classes does load_fields translate into a clean end?
+    clean: Set[str] = set()
+    for n in ast.walk(lf):
+        if isinstance(n, ast.Try):
+            body_txt = " ".join(ast.unparse(b) for b in n.body)
+            if "load_varint" in body_txt or "read" in body_txt:
+                for h in n.handlers:
+                    if any(isinstance(x, ast.Return) for x in ast.walk(ast.Module(body=h.body, type_ignores=[]))):
+                        if h.type is None:
+                            clean.add("*")
+                        elif isinstance(h.type, ast.Tuple):
+                            clean.update(ast.unparse(e) for e in h.type.elts)
+                        else:
+                            clean.add(ast.unparse(h.type))
+    if not clean:
+        ctx.inconclusive("M3b", "load_fields:clean-end", "no exception-based end-of-input signal recognised", mod.loc(lf))
+        return
+    paths = Interp(mod, fresh_calls=["read"], unroll=2).run(lv)
+    ctx.count(len(paths))
+    first, later = set(), set()
+    for p in paths:
+        if p.outcome != "raise":
+            continue
+        nreads = len([e for e in p.events if e.kind == "call" and dotted(e.data[1]).endswith(".read")])
+        exc = dotted(p.value[1]) if p.value and p.value[0] == "call" else show(p.value) if p.value else "?"
+        (first if nreads <= 1 else later).add(exc)
+    mid = {e for e in later if e in clean or "*" in clean or ("Exception" in clean and e != "?")}
+    # the bound violation (ValueError) is not an end-of-input signal unless load_fields catches it
+    if mid:
+        ctx.refuted("M3b", "load_fields:clean-end", f"mid-varint={sorted(mid)}", mod.loc(lf),
+                    f"load_varint raises {sorted(mid)} when input ends after at least one byte of a varint, the same class it raises at a clean boundary; "
+                    f"load_fields maps {sorted(clean)} on the tag read to a normal end, so an input cut inside a multi-byte tag is accepted",
+                    "M().parse(b'\\xa0')")
+    else:
+        ctx.proved("M3b", "load_fields:clean-end", mod.loc(lf), f"first-byte EOF raises {sorted(first)}, mid-varint EOF raises {sorted(later)}; clean end only for {sorted(clean)}")
+
+
+# ---------------------------------------------------------------------------
+# M4 - declared type x incoming wire type
+
+
+def rule_M4(ctx) -> None:
+    from .codec import _load_paths, model
+    from ..fieldloop import TYPE_NAMES, FIELD_NAME
+    from ..refsrc import SPEC_PACKABLE
+
+    m = model(ctx)
+    mod = m.mod
+    load = mod.func("Message.load")
+    bad: List[str] = []
+    good = 0
+    total = 0
+    first_bad_detail = ""
+    for t in TYPE_NAMES:
+        wt = m.wire_of(t)
+        for w in (0, 1, 2, 5):
+            if w == wt or (w == 2 and t in SPEC_PACKABLE):
+                continue
+            total += 1
+            paths = _load_paths(ctx, mod, t, w)
+            verdict = True
+            for p in paths:
+                if not p.valuation.get(FIELD_NAME, False):
+                    continue  # unknown-number branch
+                stores = [e for e in p.events if e.depth == 0 and (
+                    (e.kind == "call" and dotted(e.data[1]) in ("setattr", "$current.append", "$default.append", "$current.extend") and
+                     not (dotted(e.data[1]) == "setattr" and len(e.data[2]) == 3 and e.data[2][2] in (N("$default"), N("$current"))))
+                    or (e.kind == "store" and e.data[0][0] == "sub" and e.data[0][1] in (N("$current"), N("$default"))))]
+                unknown = [e for e in p.events if e.kind == "aug" and e.data[0] == A(N("self"), "_unknown_fields")]
+                raised_early = p.outcome == "raise" and not stores
+                if stores and not raised_early:
+                    verdict = False
+                    if not first_bad_detail:
+                        first_bad_detail = f"({t}, wire {w}): " + "; ".join(show(e.data) if e.kind == "call" else "store" for e in stores[:1])
+                elif not unknown and not raised_early:
+                    verdict = False
+            if verdict:
+                good += 1
+            else:
+                bad.append(f"{t}/{w}")
+    if not bad:
+        ctx.proved("M4", "load:type-x-wire", mod.loc(load), f"{total} mismatching (type, wire) pairs go to unknown fields")
+    else:
+        w = "all-mismatches" if len(bad) == total else ",".join(bad)
+        ctx.refuted("M4", "load:type-x-wire", w, mod.loc(load),
+                    f"{len(bad)} of {total} mismatching (declared type, incoming wire type) pairs are stored into the known field instead of being kept as unknown: e.g. {first_bad_detail}",
+                    "M().parse(b'\\x28\\x05')  # string field number 5 sent as varint")
+
+
+# ---------------------------------------------------------------------------
+# M5 - decode loops make progress
+
+
+def rule_M5(ctx) -> None:
+    mod = ctx.repo.mod(M_INIT)
+    sites = []
+    for q in ("parse_fields", "Message.load"):
+        fn = mod.func(q)
+        for n in ast.walk(fn):
+            if isinstance(n, ast.While):
+                sites.append((q, fn, n))
+    ctx.floor("M5", "while loops in the decoders", len(sites), 2)
+    for q, fn, lp in sites:
+        t = simplify(from_ast(lp.test))
+        var = None
+        if t[0] == "op" and t[1] == "<" and t[2][0] == "n" and t[3][0] == "call" and t[3][1] == N("len"):
+            var = t[2][1]
+        name = f"{q}:while {ast.unparse(lp.test)}"
+        if var is None:
+            if isinstance(lp.test, ast.Constant) and lp.test.value:
+                # while True: must contain a consuming call on every iteration path (handled for load_fields below)
+                continue
+            ctx.inconclusive("M5", name, "loop condition is not `pos < len(buffer)`", mod.loc(lp))
+            continue
+        g = CFG(fn, implicit_exc=False)
+        heads = [nd for nd in g.nodes_for(lp) if nd.kind == "loop"]
+        prog = set()
+        for nd in g.nodes:
+            if nd.stmt is None or nd.kind != "stmt":
+                continue
+            st = nd.stmt
+            if isinstance(st, ast.AugAssign) and isinstance(st.target, ast.Name) and st.target.id == var and isinstance(st.op, ast.Add):
+                if isinstance(st.value, ast.Constant) and isinstance(st.value.value, int) and st.value.value > 0:
+                    prog.add(nd.id)
+            if isinstance(st, ast.Assign):
+                # i = i + k / (x, i) = decode_varint(buf, i) / decoded, i = buf[i:i+8], i + 8
+                for tgt in st.targets:
+                    names = [e.id for e in (tgt.elts if isinstance(tgt, ast.Tuple) else [tgt]) if isinstance(e, ast.Name)]
+                    if var in names:
+                        vals = st.value.elts if isinstance(st.value, ast.Tuple) and isinstance(tgt, ast.Tuple) and len(st.value.elts) == len(tgt.elts) else None
+                        if vals is not None:
+                            v = vals[[e.id if isinstance(e, ast.Name) else None for e in tgt.elts].index(var)]
+                            if isinstance(v, ast.BinOp) and isinstance(v.op, ast.Add) and isinstance(v.right, ast.Constant) and isinstance(v.right.value, int) and v.right.value > 0 \
+                                    and isinstance(v.left, ast.Name) and v.left.id == var:
+                                prog.add(nd.id)
+                        elif isinstance(st.value, ast.Call) and ast.unparse(st.value.func) == "decode_varint":
+                            prog.add(nd.id)
+        ok = bool(heads) and all(h.id not in g.reach_from_successors(h.id, avoid=prog, labels=lambda l: l == "iter" or (normal_edge(l) and l != "done")) for h in heads)
+        # reach_from_successors starts from all successors incl. 'done'; restrict to body entry
+        ok = True
+        for h in heads:
+            starts = [m for m, lab in g.succ[h.id] if lab == "iter"]
+            back = g.reachable(starts, avoid=prog, labels=normal_edge)
+            if h.id in back:
+                ok = False
+        if ok:
+            ctx.proved("M5", name, mod.loc(lp), f"every iteration advances `{var}`")
+        else:
+            ctx.refuted("M5", name, "no-progress-path", mod.loc(lp), f"an iteration of the loop can return to its head without advancing `{var}`")
+    # load_fields: every iteration starts with a varint read (>= 1 byte or EOF)
+    lf = mod.func("load_fields")
+    g = CFG(lf, implicit_exc=False)
+    heads = [nd for nd in g.nodes if nd.kind == "loop"]
+    cons = {nd.id for nd in g.nodes if nd.stmt is not None and nd.kind == "stmt" and any(
+        isinstance(x, ast.Call) and ast.unparse(x.func) in ("load_varint",) for x in own_nodes(nd.stmt))}
+    ok = bool(heads)
+    for h in heads:
+        starts = [m for m, lab in g.succ[h.id] if lab == "iter"]
+        if h.id in g.reachable(starts, avoid=cons, labels=normal_edge):
+            ok = False
+    if ok:
+        ctx.proved("M5", "load_fields:while True", mod.loc(lf), "every iteration reads a tag varint")
+    else:
+        ctx.refuted("M5", "load_fields:while True", "no-progress-path", mod.loc(lf), "an iteration can complete without consuming input")
+
+
+# ---------------------------------------------------------------------------
+# N5 - varint decoders return only after a terminator byte
+
+
+def rule_N5(ctx, rule: str = "N5") -> None:
+    """every function that decodes a base-128 varint (tests the 0x80 continuation
+    bit in a loop) returns normally only on the path where that bit is clear"""
+    mod = ctx.repo.mod(M_INIT)
+    sites = 0
+    for q, fn in mod.functions():
+        conts = []
+        for n in ast.walk(fn):
+            if isinstance(n, ast.If):
+                t = simplify(from_ast(n.test, lambda nm: C(mod.consts[nm]) if nm in mod.consts and isinstance(mod.consts[nm], int) else None))
+                base = t
+                neg = False
+                while base[0] == "op" and base[1] == "not":
+                    neg = not neg
+                    base = base[2]
+                if base[0] == "op" and base[1] == "&" and C(0x80) in base[2:]:
+                    conts.append((n, neg))
+                elif base[0] == "op" and base[1] in ("<", "==") and any(x[0] == "op" and x[1] == "&" and C(0x80) in x[2:] for x in base[2:]):
+                    conts.append((n, None))
+        loops = [n for n in ast.walk(fn) if isinstance(n, (ast.For, ast.While))]
+        if not conts or not loops:
+            continue
+        sites += 1
+        g = CFG(fn, implicit_exc=False)
+        # edges on which the continuation bit is known clear: the test's branch where (b & 0x80) is falsy
+        ok = True
+        why = ""
+        clear_targets: Set[int] = set()
+        for n, neg in conts:
+            if neg is None:
+                ok = None
+                continue
+            for nd in g.nodes_for(n):
+                if nd.kind != "test":
+                    continue
+                lab = "true" if neg else "false"
+                for m_, l in g.succ[nd.id]:
+                    if l == lab:
+                        clear_targets.add(m_)
+        if ok is None:
+            ctx.inconclusive(rule, f"{q}:returns-after-terminator", "continuation test not in a recognised form", mod.loc(fn))
+            continue
+        # normal exit must not be reachable without crossing a "bit clear" edge target
+        reach = g.reachable([g.entry.id], avoid=clear_targets, labels=normal_edge)
+        if g.exit.id in reach:
+            path = g.find_path(g.entry.id, {g.exit.id}, avoid=clear_targets, labels=normal_edge)
+            ctx.refuted(rule, f"{q}:returns-after-terminator", "returns-on-exhaustion", mod.loc(fn),
+                        f"{q} can return normally without having seen a byte with the continuation bit clear (input ended inside a varint): {g.describe(path) if path else ''}",
+                        "a buffer ending in a byte with bit 0x80 set, e.g. decode_varint(b'\\xac', 0)")
+        else:
+            ctx.proved(rule, f"{q}:returns-after-terminator", mod.loc(fn))
+    ctx.floor(rule, "varint decode loops", sites, 1)
+
+
+# ---------------------------------------------------------------------------
+# U1 - byte conservation in the field readers
+
+
+def _sum_parts(s: Sym) -> List[Sym]:
+    if s[0] == "op" and s[1] == "+":
+        out = []
+        for x in s[2:]:
+            out.extend(_sum_parts(x))
+        return out
+    return [s]
+
+
+def rule_U1(ctx) -> None:
+    mod = ctx.repo.mod(M_INIT)
+    lf = mod.func("load_fields")
+    sites = 0
+    for w in VALID_WIRE:
+        paths = _reader_paths(ctx, mod, "load_fields", w)
+        for p in paths:
+            ys = [e for e in p.events if e.kind == "yield"]
+            if not ys:
+                continue
+            y = ys[0]
+            raw = None
+            if y.data[0] == "call":
+                for k, v in y.data[3]:
+                    if k == "raw":
+                        raw = v
+                if raw is None and len(y.data[2]) >= 4:
+                    raw = y.data[2][3]
+            consumed = []
+            for e in p.events:
+                if e.kind != "call" or e.depth:
+                    continue
+                nm = dotted(e.data[1])
+                if nm.endswith(".read"):
+                    consumed.append(e.data)
+                elif nm == "load_varint":
+                    consumed.append(("item", e.data, 1))
+            sites += len(consumed)
+            parts = _sum_parts(raw) if raw is not None else []
+            missing = [c for c in consumed if c not in parts]
+            extra = [x for x in parts if x not in consumed and x != C(b"")]
+            dup = len(parts) != len(set(parts))
+            name = f"load_fields:raw[wire {w}]"
+            if raw is None:
+                ctx.inconclusive("U1", name, "yielded ParsedField has no raw argument", mod.loc(lf))
+            elif missing or extra or dup:
+                ctx.refuted("U1", name, f"missing={len(missing)} extra={len(extra)} dup={dup}", mod.loc(lf),
+                            f"bytes consumed from the stream do not all reach ParsedField.raw: missing {[show(x) for x in missing]}, extra {[show(x) for x in extra]}",
+                            "Old().parse(new_bytes) then bytes(...) for an unknown field of this wire type")
+            else:
+                # order must be the order of consumption
+                if [c for c in consumed] != parts:
+                    ctx.refuted("U1", name, "order", mod.loc(lf), f"raw is assembled out of order: {[show(x) for x in parts]}")
+                else:
+                    ctx.proved("U1", name, mod.loc(lf), f"{len(consumed)} consuming calls all in raw")
+    ctx.floor("U1", "consuming sites", sites, 6)
+    # parse_fields: raw is the slice from the iteration's start to its end position
+    pf = mod.func("parse_fields")
+    for w in VALID_WIRE:
+        paths = _reader_paths(ctx, mod, "parse_fields", w)
+        for p in paths:
+            ys = [e for e in p.events if e.kind == "yield"]
+            if not ys:
+                continue
+            y = ys[0]
+            raw = dict((k, v) for k, v in y.data[3]).get("raw") if y.data[0] == "call" else None
+            name = f"parse_fields:raw[wire {w}]"
+            buf = N(pf.args.args[0].arg)
+            pos_final = None
+            # the position variable is the one in the loop condition
+            for n in ast.walk(pf):
+                if isinstance(n, ast.While) and isinstance(n.test, ast.Compare) and isinstance(n.test.left, ast.Name):
+                    pos_final = p.locals.get(n.test.left.id)
+            if raw is not None and raw[0] == "sub" and raw[1] == buf and raw[2][0] == "slice" and raw[2][2] == pos_final and raw[2][1] in (C(0), N("start")):
+                ctx.proved("U1", name, mod.loc(pf))
+            elif raw is not None and raw[0] == "sub" and raw[1] == buf and raw[2][0] == "slice" and raw[2][2] == pos_final:
+                ctx.proved("U1", name, mod.loc(pf))
+            else:
+                ctx.refuted("U1", name, "not-start-to-end", mod.loc(pf), f"raw is {show(raw) if raw else None}, expected {show(buf)}[start:{show(pos_final) if pos_final else '?'}]")
+
+
+# ---------------------------------------------------------------------------
+# U2/U3 - unknown branch stores exactly the raw bytes; writers of _unknown_fields
+
+
+def rule_U2(ctx) -> None:
+    from .codec import _load_paths
+    from ..fieldloop import FIELD_NAME
+
+    mod = ctx.repo.mod(M_INIT)
+    load = mod.func("Message.load")
+    paths = _load_paths(ctx, mod, None, None)
+    unk = [p for p in paths if p.valuation.get(FIELD_NAME) is False]
+    ctx.floor("U2", "unknown-number paths", len(unk), 1)
+    bad = ""
+    for p in unk:
+        augs = [e for e in p.events if e.kind == "aug" and e.data[0] == A(N("self"), "_unknown_fields")]
+        stores = [e for e in p.events if e.kind == "store" and e.data[0] == A(N("self"), "_unknown_fields")]
+        ok_append = len(augs) == 1 and augs[0].data[1] == "+" and augs[0].data[2] == A(N("$parsed"), "raw") and not stores
+        if not ok_append and len(stores) == 1 and not augs:
+            v = stores[0].data[1]
+            ok_append = v == ("op", "+", A(N("self"), "_unknown_fields"), A(N("$parsed"), "raw"))
+        touched = [e for e in p.events if e.kind == "call" and e.depth == 0 and dotted(e.data[1]) in ("setattr", "$current.append", "$default.append")]
+        if not ok_append:
+            bad = "the unknown-number branch does not append exactly parsed.raw to _unknown_fields: " + "; ".join(
+                f"{show(e.data[0])} {e.data[1]}= {show(e.data[2])}" for e in augs) + "; ".join(f"{show(e.data[0])} = {show(e.data[1])}" for e in stores)
+            break
+        if touched:
+            bad = "the unknown-number branch writes a known field: " + show(touched[0].data)
+            break
+    if bad:
+        ctx.refuted("U2", "load:unknown-branch", "not-append-raw", mod.loc(load), bad, "Old().parse(bytes(New(a=1, extra=2))) then bytes(...)")
+    else:
+        ctx.proved("U2", "load:unknown-branch", mod.loc(load), f"{len(unk)} paths append parsed.raw and touch no field")
+    # every store to _unknown_fields anywhere in load keeps what is already there (parse() merges into an existing instance)
+    repl = []
+    for n in ast.walk(load):
+        if isinstance(n, ast.Assign):
+            for t in n.targets:
+                if isinstance(t, ast.Attribute) and t.attr == "_unknown_fields":
+                    if "_unknown_fields" not in ast.unparse(n.value):
+                        repl.append(n)
+    if repl:
+        ctx.refuted("U2", "load:unknown-fields-accumulate", "replaced", mod.loc(repl[0]),
+                    f"`{ast.unparse(repl[0])}` replaces unknown bytes already held by the instance (parse()/load() merge into an existing message)",
+                    "m.parse(chunk1); m.parse(chunk2); bytes(m)  # both with unknown fields")
+    else:
+        ctx.proved("U2", "load:unknown-fields-accumulate", mod.loc(load))
+
+
+def rule_U3(ctx) -> None:
+    """_unknown_fields is emitted by dump and counted by __len__ on every normal path"""
+    from ..fieldloop import interp_for
+
+    mod = ctx.repo.mod(M_INIT)
+    dump = mod.func("Message.dump")
+    ln = mod.func("Message.__len__")
+    stream = dump.args.args[1].arg
+    uf = A(N("self"), "_unknown_fields")
+    paths = interp_for(mod).run(dump)
+    ctx.count(len(paths))
+    bad = [p for p in paths if p.outcome != "raise" and not any(
+        e.kind == "call" and e.depth == 0 and dotted(e.data[1]) == f"{stream}.write" and e.data[2] == (uf,) and not e.loops for e in p.events)]
+    last_ok = all((not [e for e in p.events if e.kind == "call" and e.depth == 0 and dotted(e.data[1]) == f"{stream}.write"]) or
+                  [e for e in p.events if e.kind == "call" and e.depth == 0 and dotted(e.data[1]) == f"{stream}.write"][-1].data[2] == (uf,) for p in paths if p.outcome != "raise")
+    if bad:
+        ctx.refuted("U3", "dump:emits-unknown-fields", "missing", mod.loc(dump), f"{len(bad)} normal paths of dump do not write self._unknown_fields", "bytes(Old().parse(new_bytes))")
+    elif not last_ok:
+        ctx.refuted("U3", "dump:emits-unknown-fields", "not-last", mod.loc(dump), "unknown fields are not written after the known fields")
+    else:
+        ctx.proved("U3", "dump:emits-unknown-fields", mod.loc(dump), f"{len(paths)} paths")
+    paths = interp_for(mod).run(ln)
+    ctx.count(len(paths))
+    from ..lenalg import size_term
+    bad = []
+    for p in paths:
+        if p.outcome != "return" or p.value is None:
+            continue
+        t = size_term(p.value)
+        if ("len", uf) not in t[1]:
+            bad.append(p)
+    if bad:
+        ctx.refuted("U3", "__len__:counts-unknown-fields", "missing", mod.loc(ln), f"{len(bad)} return paths of __len__ do not add len(self._unknown_fields)")
+    else:
+        ctx.proved("U3", "__len__:counts-unknown-fields", mod.loc(ln))
+
+
+# ---------------------------------------------------------------------------
+# S2/U4 - byte accounting on every iteration
+
+
+def _load_loop_nodes(g: CFG, load: ast.AST):
+    heads = [nd for nd in g.nodes if nd.kind == "loop" and isinstance(nd.stmt, ast.For) and isinstance(nd.stmt.iter, ast.Call)
+             and ast.unparse(nd.stmt.iter.func) in ("load_fields", "parse_fields")]
+    return heads
+
+
+def _size_param(load: ast.AST) -> str:
+    params = [a.arg for a in load.args.args]
+    if len(params) < 3:
+        raise AnalysisError("Message.load lost its size parameter")
+    return params[2]
+
+
+def _is_size_none_test(test: ast.AST, size: str) -> Optional[bool]:
+    """truth value of the test when size is not None, if the test is about that"""
+    t = simplify(from_ast(test))
+    if t == ("op", "is", N(size), C(None)):
+        return False
+    if t == ("op", "not", ("op", "is", N(size), C(None))):
+        return True
+    return None
+
+
+def _accounting_nodes(g: CFG, counter_hint: Optional[str] = None):
+    out = []
+    for nd in g.nodes:
+        st = nd.stmt
+        if nd.kind == "stmt" and isinstance(st, ast.AugAssign) and isinstance(st.op, ast.Add) and isinstance(st.target, ast.Name):
+            v = ast.unparse(st.value)
+            if v.startswith("len(") and v.endswith(".raw)"):
+                out.append(nd)
+    return out
+
+
+def _prune_size_none(g: CFG, size: str) -> Set[Tuple[int, str]]:
+    """edges that are infeasible when size is not None"""
+    dead = set()
+    for nd in g.nodes:
+        if nd.kind == "test" and isinstance(nd.stmt, ast.If):
+            tv = _is_size_none_test(nd.stmt.test, size)
+            if tv is not None:
+                dead.add((nd.id, "false" if tv else "true"))
+    return dead
+
+
+def rule_S2(ctx, rule: str = "S2") -> None:
+    mod = ctx.repo.mod(M_INIT)
+    load = mod.func("Message.load")
+    size = _size_param(load)
+    g = CFG(load, implicit_exc=False)
+    heads = _load_loop_nodes(g, load)
+    if not heads:
+        raise AnalysisError("Message.load: field loop over load_fields(...) not found")
+    acc = _accounting_nodes(g)
+    if not acc:
+        ctx.refuted(rule, "load:byte-accounting", "absent", mod.loc(load), "no `read += len(parsed.raw)` accounting statement in the field loop")
+        return
+    dead = _prune_size_none(g, size)
+    accids = {a.id for a in acc}
+
+    def lab_ok(n_from):
+        return lambda l: normal_edge(l)
+
+    # reachability with per-edge pruning: emulate by removing dead edges
+    def reach(starts, avoid):
+        seen = set()
+        stack = [s for s in starts if s not in avoid]
+        while stack:
+            n = stack.pop()
+            if n in seen:
+                continue
+            seen.add(n)
+            for m_, lab in g.succ[n]:
+                if not normal_edge(lab) or (n, lab) in dead or m_ in avoid or m_ in seen:
+                    continue
+                stack.append(m_)
+        return seen
+
+    for h in heads:
+        starts = [m_ for m_, lab in g.succ[h.id] if lab == "iter"]
+        back = reach(starts, accids)
+        if h.id in back:
+            # find the bypassing path for the report
+            path = g.find_path(h.id, {h.id}, avoid=accids, labels=lambda l: normal_edge(l) and l != "done")
+            ctx.refuted(rule, "load:byte-accounting", "bypass", mod.loc(load),
+                        "an iteration of the field loop can reach the next field without `read += len(parsed.raw)` (size given): "
+                        + (g.describe(path) if path else ""),
+                        "Old().load(stream_of(New(...)), SIZE_DELIMITED) where the data has a field unknown to Old")
+        else:
+            ctx.proved(rule, "load:byte-accounting", mod.loc(load), "every iteration accounts for the bytes of its field")
+
+
+# ---------------------------------------------------------------------------
+# S1 - ordering invariant over {read < size, =, >}
+
+
+def rule_S1(ctx) -> None:
+    mod = ctx.repo.mod(M_INIT)
+    load = mod.func("Message.load")
+    size = _size_param(load)
+    g = CFG(load, implicit_exc=False)
+    heads = _load_loop_nodes(g, load)
+    acc = _accounting_nodes(g)
+    if not heads or not acc:
+        ctx.inconclusive("S1", "load:ordering-invariant", "field loop or accounting statement not found", mod.loc(load))
+        return
+    counter = acc[0].stmt.target.id  # type: ignore[union-attr]
+    dead = _prune_size_none(g, size)
+    LT, EQ, GT = "<", "=", ">"
+    ALL = frozenset((LT, EQ, GT))
+    # abstract state: (frozenset of relations read?size, read_is_zero: bool)
+    State = Tuple[frozenset, bool]
+    states: Dict[int, Set[State]] = {nd.id: set() for nd in g.nodes}
+
+    def transfer_stmt(nd: Node, s: State) -> State:
+        rel, zero = s
+        st = nd.stmt
+        if nd.kind == "stmt" and isinstance(st, ast.Assign) and len(st.targets) == 1 and isinstance(st.targets[0], ast.Name):
+            if st.targets[0].id == counter:
+                if isinstance(st.value, ast.Constant) and st.value.value == 0:
+                    return frozenset((LT, EQ)), True       # size >= 0 (a varint or a caller-supplied length)
+                if ast.unparse(st.value) == counter:
+                    return s
+                return ALL, False
+            if st.targets[0].id == size:
+                return (frozenset((LT, EQ)), True) if zero else (ALL, False)
+        if nd.kind == "stmt" and isinstance(st, ast.Assign) and any(isinstance(t, ast.Tuple) and any(isinstance(e, ast.Name) and e.id == size for e in t.elts) for t in st.targets):
+            return (frozenset((LT, EQ)), True) if zero else (ALL, False)
+        if nd.kind == "stmt" and isinstance(st, ast.AugAssign) and isinstance(st.target, ast.Name) and st.target.id == counter:
+            # read += k with k >= 1 (a parsed field is at least a tag byte)
+            new = set()
+            if LT in rel:
+                new |= {LT, EQ, GT}
+            if EQ in rel or GT in rel:
+                new |= {GT}
+            return frozenset(new), False
+        return s
+
+    def refine(test: ast.AST, s: State, branch: bool) -> Optional[State]:
+        return _refine_sym(simplify(from_ast(test)), s, branch)
+
+    def _refine_sym(t: Sym, s: State, want: bool) -> Optional[State]:
+        """states compatible with term t evaluating to `want` (size is not None throughout)"""
+        rel, zero = s
+        while t[0] == "op" and t[1] == "not":
+            want = not want
+            t = t[2]
+        r, z = N(counter), N(size)
+        if t == ("op", "is", z, C(None)):
+            return None if want else s
+        if t[0] == "op" and t[1] in ("and", "or"):
+            parts = list(t[2:])
+            conj = (t[1] == "and") == want     # all parts must have value `want`
+            if conj:
+                cur: Optional[State] = s
+                for part in parts:
+                    if cur is None:
+                        return None
+                    cur = _refine_sym(part, cur, want)
+                return cur
+            # disjunctive case: union over the parts; states are sets of relations so merge them
+            outs = [o for o in (_refine_sym(part, s, want) for part in parts) if o is not None]
+            if not outs:
+                return None
+            return frozenset().union(*[o[0] for o in outs]), all(o[1] for o in outs)
+        keep = None
+        if t == ("op", "==", r, z) or t == ("op", "==", z, r):
+            keep = {EQ} if want else {LT, GT}
+        elif t == ("op", "<", r, z):
+            keep = {LT} if want else {EQ, GT}
+        elif t == ("op", "<", z, r):
+            keep = {GT} if want else {LT, EQ}
+        elif zero and t == ("op", "==", z, C(0)):
+            keep = {EQ} if want else {LT}
+        elif zero and t == z:                       # truthiness of size while read == 0
+            keep = {LT} if want else {EQ}
+        elif zero and t == ("op", "<", C(0), z):
+            keep = {LT} if want else {EQ}
+        if keep is None:
+            return s
+        nr = frozenset(rel & keep)
+        return (nr, zero) if nr else None
+
+    # worklist
+    init: State = (ALL, False)
+    work = [(g.entry.id, init)]
+    advance_states: Set[State] = set()
+    exit_states: Set[State] = set()
+    steps = 0
+    while work:
+        nid, s = work.pop()
+        if s in states[nid]:
+            continue
+        states[nid].add(s)
+        steps += 1
+        if steps > 200000:
+            raise AnalysisError("S1: abstract interpretation did not converge")
+        nd = g.nodes[nid]
+        if nid == g.exit.id:
+            exit_states.add(s)
+            continue
+        out = transfer_stmt(nd, s)
+        for m_, lab in g.succ[nid]:
+            if not normal_edge(lab) or (nid, lab) in dead:
+                continue
+            s2: Optional[State] = out
+            if nd.kind == "test" and isinstance(nd.stmt, ast.If) and lab in ("true", "false"):
+                s2 = refine(nd.stmt.test, out, lab == "true")
+            if nd.kind == "loop" and nd in heads and lab == "iter":
+                advance_states.add(out)
+            if s2 is not None:
+                work.append((m_, s2))
+    ctx.count(steps)
+    adv = set().union(*[s[0] for s in advance_states]) if advance_states else set()
+    ext = set().union(*[s[0] for s in exit_states]) if exit_states else set()
+    if adv <= {LT}:
+        ctx.proved("S1", "load:advance-only-when-read<size", mod.loc(load), f"field generator advanced in states {sorted(adv)}")
+    else:
+        w = "read==size" if EQ in adv else "read>size"
+        zero_case = any(z for (rel, z) in advance_states if EQ in rel)
+        ctx.refuted("S1", "load:advance-only-when-read<size", w + (":size==0" if zero_case else ""), mod.loc(load),
+                    f"with a size given, the next field is read from the stream in state(s) {sorted(adv - {LT})} "
+                    + ("(first iteration with size == 0): an empty delimited message consumes the message that follows it" if zero_case else ""),
+                    "dump Old() and Old(a=5) delimited into one stream; the first load(s, SIZE_DELIMITED) consumes both")
+    if ext <= {EQ}:
+        ctx.proved("S1", "load:return-only-when-read==size", mod.loc(load))
+    else:
+        ctx.refuted("S1", "load:return-only-when-read==size", ",".join(sorted(ext - {EQ})), mod.loc(load),
+                    f"load can return normally with read {sorted(ext - {EQ})} size: a short or over-long message is not detected")
+
+
+def rule_S3(ctx) -> None:
+    """the delimiter: load takes `size` from load_varint under size == SIZE_DELIMITED, before the loop"""
+    from .codec import _load_paths
+
+    mod = ctx.repo.mod(M_INIT)
+    load = mod.func("Message.load")
+    size = _size_param(load)
+    sd = mod.consts.get("SIZE_DELIMITED")
+    atom = ("op", "==", N(size), C(sd))
+    paths = _load_paths(ctx, mod, None, None, assume={atom: True})
+    ok = True
+    why = ""
+    for p in paths:
+        calls = [e for e in p.events if e.kind == "call" and dotted(e.data[1]) == "load_varint" and e.depth == 0 and not e.loops]
+        loop_idx = next((i for i, e in enumerate(p.events) if e.kind == "loop"), None)
+        if not calls:
+            ok, why = False, "no load_varint(stream) call before the field loop"
+            break
+        idx = p.events.index(calls[0])
+        if loop_idx is not None and idx > loop_idx:
+            ok, why = False, "length prefix read after the field loop started"
+            break
+        s = p.locals.get(size)
+        if s != ("item", calls[0].data, 0):
+            ok, why = False, f"`{size}` is {show(s) if s else None}, not the value decoded by load_varint"
+            break
+    if ok:
+        ctx.proved("S3", "load:prefix", mod.loc(load), f"{len(paths)} paths")
+    else:
+        ctx.refuted("S3", "load:prefix", why, mod.loc(load), why, "M().load(stream, SIZE_DELIMITED)")
